@@ -22,6 +22,40 @@ CHECKS = {
         design_ref="6/C13"),
 }
 
+CHECKS.update({
+    "C01": dict(
+        text="Kernel-checked discrete maximum principle for the tridiagonal step (bounds between the running minimum of the "
+             "frac-face pseudopressure and m_i, monotone profile, unique fixed point, Thomas solve correctness), lifted by induction "
+             "over the time list to the whole simulation for every non-negative diffusivity, node count, non-decreasing time grid and "
+             "schedule. Tied to the code by (a) the translated _build_matrix proved equal to the model matrix on every run and "
+             "(b) the float instance of the same Gallina model run by vm_compute against the implementation on generated cases; "
+             "the proved conclusions are also evaluated on the implementation's own output to give concrete replays. "
+             "Time-monotonicity of the single-phase scheme is refuted on the real code (known finding K3).",
+        technique="Coq proof (min principle + induction over steps) over hand model + float-instance correspondence + translated matrix",
+        design_ref="6/C01"),
+    "C04": dict(
+        text="Theorem: with the solver as an oracle under scipy's contract, every accepted level solves its step system within the "
+             "configured tolerance and a non-converged solve is never accepted (any run length). The step system is the model's "
+             "(proved equal to the translated _build_matrix); per-step residuals of the implementation's stored levels are computed "
+             "by the float instance of that model inside Coq for every step of generated runs (nx to 400, p_f/p_i=0.9998); the "
+             "tolerance and the info check are read behaviourally by intercepting bicgstab, with fault injection.",
+        technique="Coq proof over solver-oracle model + per-step residual evaluation by the float model (vm_compute) + solver interception",
+        design_ref="6/C04"),
+    "C10": dict(
+        text="Theorem for all call histories of any length over uninterpreted numerics: a simulate() forgets all earlier state, so "
+             "state and later outputs equal a fresh object's; repeated calls agree. The state machine's symbolic instance is run by "
+             "vm_compute on all histories up to length 3 (quick) / 4-5 (thorough) plus random longer ones, and each predicted value is "
+             "recomputed on fresh implementation objects and compared for exact equality.",
+        technique="Coq proof (refinement of object state machine to memory-less spec) + exhaustive bounded-history correspondence",
+        design_ref="6/C10"),
+    "C17": dict(
+        text="Theorems on the model: simulate and flux recovery depend on times only through increments (shift invariance, any c, "
+             "any grid), mismatched schedule length is rejected, interpolator is exact at nodes / 0 before / last after. The "
+             "implementation is exercised with shifts to 1e6, constant schedules, wrong lengths, and compared with the float model.",
+        technique="Coq proof (structural induction on the time fold) + float-instance correspondence",
+        design_ref="6/C17"),
+})
+
 NOT_APPLICABLE = {}
 
 
